@@ -624,14 +624,44 @@ func fzSweepOps(honest []byte, maxNodes int) (ops []fzOp) {
 		switch {
 		case n.mt <= 1:
 			ops = append(ops, fzOp{i, "zero"}, fzOp{i, "max"})
+			if n.arg < 1<<31 { // small integers are mostly identifiers (algorithms, key types, cipher suites, versions): registry neighbours
+				for k := range fzRegistryIDs {
+					// all of them where the message is a protocol's first (anyone can send it); elsewhere a rotating sixth
+					if fzFullIDs || (k+i)%6 == 0 {
+						ops = append(ops, fzOp{i, fmt.Sprintf("id:%d", k)})
+					}
+				}
+			}
 		case n.mt == 2 || n.mt == 3:
 			ops = append(ops, fzOp{i, "empty"})
 		case n.mt == 4 || n.mt == 5:
 			ops = append(ops, fzOp{i, "empty"}, fzOp{i, "insert-null"})
+			if n.mt == 4 && len(n.kids) >= 1 {
+				ops = append(ops, fzOp{i, "repeat:1001"}, fzOp{i, "repeat:3000"})
+			}
+			if n.mt == 4 {
+				ops = append(ops, fzOp{i, "claim:99999"}, fzOp{i, "claim-nested:99999"})
+			}
+		}
+	}
+	// claimed counts are tried at EVERY array of the message, however deep (the slices a decoder might size by the claim sit
+	// deep inside vouchers and headers)
+	if maxNodes < len(order) {
+		for _, i := range order[maxNodes:] {
+			if nodes[i].mt == 4 {
+				ops = append(ops, fzOp{i, "claim:99999"}, fzOp{i, "claim-nested:99999"})
+			}
 		}
 	}
 	return ops
 }
+
+// fzRegistryIDs: identifiers around the library's registries (COSE algorithms, key types and encodings, cipher suites,
+// hash algorithms) including named-but-unregistered ones.
+var fzFullIDs bool
+
+var fzRegistryIDs = []int64{1, 2, 3, 4, 5, 6, 7, 10, 11, 12, 13, 14, 30, 31, 32, 33, 34, 101, 255, 256, -1, -5, -7, -8, -16, -17, -35, -36, -37, -38, -39, -43, -44,
+	-257, -258, -259, -260, -17760701, -17760702, -17760703, -17760707, -17760708, -65535}
 
 // fzApplyOp applies a sweep operation to a fresh instance of the message (same shape, other nonces).
 func fzApplyOp(h []byte, o fzOp) []byte {
@@ -649,10 +679,38 @@ func fzApplyOp(h []byte, o fzOp) []byte {
 		n.rawOv = []byte{0xf6}
 	case "zero":
 		n.rawOv = []byte{0x00}
+	default:
+		if strings.HasPrefix(o.op, "id:") {
+			k, _ := strconv.Atoi(strings.TrimPrefix(o.op, "id:"))
+			if k >= 0 && k < len(fzRegistryIDs) {
+				v := fzRegistryIDs[k]
+				if v >= 0 {
+					n.rawOv = head(0, uint64(v))
+				} else {
+					n.rawOv = head(1, uint64(-1-v))
+				}
+			}
+		}
 	case "max":
 		n.rawOv = []byte{0x1b, 0xff, 0xff, 0xff, 0xff, 0xff, 0xff, 0xff, 0xff}
 	case "empty":
 		n.rawOv = []byte{n.mt << 5}
+	case "repeat:1001", "repeat:3000":
+		// the array's own elements cycled up to N items (service info lists: more entries than any internal queue holds)
+		want, _ := strconv.Atoi(strings.TrimPrefix(o.op, "repeat:"))
+		orig := n.kids
+		size := len(root.bytes())
+		for k := 0; len(n.kids) < want && size < 60000; k++ {
+			kid := orig[k%len(orig)]
+			n.kids = append(n.kids, &fzNode{par: n, rawOv: kid.bytes()})
+			size += len(kid.bytes())
+		}
+	case "claim:99999":
+		// the largest count the decoder admits, with the honest (short) content behind it
+		n.headOv = []byte{0x9a, 0x00, 0x01, 0x86, 0x9f}
+	case "claim-nested:99999":
+		// ... and nothing but further such heads behind it
+		n.rawOv = fzRep([]byte{0x9a, 0x00, 0x01, 0x86, 0x9f}, 8)
 	case "insert-null":
 		for k := 0; k < int(n.mt)-3; k++ { // one element for arrays, a pair for maps
 			n.kids = append(n.kids, &fzNode{par: n, rawOv: []byte{0xf6}})
@@ -692,6 +750,12 @@ func fzShapes() (out []fzNamed) {
 		}
 		return b
 	}())
+	// arrays claiming the largest count the decoder admits (MaxArrayDecodeLength-1 = 99999), nested, with nothing behind:
+	// a decoder that sizes its slices by the claimed count pays megabytes per level for a few bytes of input
+	for _, k := range []int{1, 4, 16, 64, 120} {
+		add(fmt.Sprintf("shape:nested-array-99999x%d", k), fzRep([]byte{0x9a, 0x00, 0x01, 0x86, 0x9f}, k))
+		add(fmt.Sprintf("shape:nested-map-49999x%d", k), fzRep([]byte{0xba, 0x00, 0x00, 0xc3, 0x4f}, k))
+	}
 	add("shape:break", []byte{0xff})
 	add("shape:reserved-1c", []byte{0x1c})
 	add("shape:float-negzero", []byte{0xf9, 0x80, 0x00})
@@ -765,7 +829,7 @@ func fzFrames(stack string) string {
 	return strings.Join(out, " < ")
 }
 
-func fzAllocLimit(n int, base uint64) uint64 { return 64*uint64(n) + 8<<20 + base }
+func fzAllocLimit(n int, base uint64) uint64 { return 128*uint64(n) + 4<<20 + 2*base }
 
 func fzHexClip(b []byte) string {
 	if len(b) <= 1500 {
@@ -811,7 +875,8 @@ type fzRun struct {
 	out       string       // where the report is flushed
 	progress  string       // file holding the number of the last case covered by the flushed report
 	lastFlush int
-	risky     bool // flush after every case
+	risky     bool            // flush after every case
+	hung      map[string]bool // client positions that already produced a 10 s hang
 }
 
 func (f *fzRun) distinct(pos string, b []byte) {
@@ -1181,7 +1246,10 @@ func (s *fzSrv) run(nMut, nShapes, nSweep int, envelope bool) {
 		s.honestPlain, s.honestWire = nil, nil
 		s.one(p, fzReq{kind: "honest"})
 		signed := p.msg == 32 || p.msg == 64
-		for _, op := range fzSweepOps(s.honestPlain, nSweep) {
+		fzFullIDs = p.msg == 10 || p.msg == 20 || p.msg == 30 || p.msg == 60
+		sweepOps := fzSweepOps(s.honestPlain, nSweep)
+		fzFullIDs = false
+		for _, op := range sweepOps {
 			s.one(p, fzReq{kind: "sweep:" + op.op, plain: func(h []byte) ([]byte, string) {
 				m := fzApplyOp(h, op)
 				if signed {
@@ -1427,7 +1495,6 @@ type fzCli struct {
 	to1d *cose.Sign1[protocol.To1d, []byte]
 	wrap *fzResponder
 	base map[string]uint64
-	hung map[string]bool
 	seq  map[string][]int // honest request-type sequence per role
 	// honest responses per role and exchange: as received, and (tunnelled ones) the plaintext before encryption
 	hWire, hPlain map[string][][]byte
@@ -1574,7 +1641,7 @@ func (s *fzCli) one(role string, k int, q fzResp) {
 	ctx, cancel := context.WithTimeout(context.Background(), 40*time.Second)
 	var err error
 	limit := 10 * time.Second
-	if s.hung[pos] { // this position already produced a 10 s hang in this configuration: do not spend 10 s on each repetition
+	if s.hung[pos] { // this position already produced a 10 s hang in this run: do not spend 10 s on each repetition
 		limit = 3 * time.Second
 	}
 	meas := fzMeasure(limit, func() { err = s.role(ctx, role) })
@@ -1655,7 +1722,10 @@ func (s *fzCli) one(role string, k int, q fzResp) {
 	if lim := fzAllocLimit(len(sent), 4*s.base[role]); q.kind != "honest" && meas.alloc > lim && !meas.hang {
 		c.Fail("alloc@client:"+sigPos, fmt.Sprintf("%s: %d bytes allocated (limit %d; honest run %d)", id, meas.alloc, lim, s.base[role]), "fuzz.client", params, obs)
 	}
-	if outcome == "success" && hit && q.garbage && len(sent) > 0 && !fzWellFormed(sent) {
+	// the clients decode a stream: what counts is whether the bytes BEGIN with a well-formed item (trailing bytes are not read)
+	var firstItem cbor.RawBytes
+	startsWithItem := cbor.NewDecoder(bytes.NewReader(sent)).Decode(&firstItem) == nil
+	if outcome == "success" && hit && q.garbage && len(sent) > 0 && !fzWellFormed(sent) && !startsWithItem {
 		c.Fail("accepted-garbage@client:"+sigPos, id+": the client reported success although the response was replaced by bytes that are not CBOR", "fuzz.client", params, obs)
 	}
 	if meas.hang {
@@ -1921,7 +1991,7 @@ func fzCaseFile() string { return filepath.Join(WorkDir(), "c10-current-case.txt
 func fzChild(c *core.Ctx) {
 	defer closeSrvEnvs()
 	slog.SetDefault(slog.New(slog.NewTextHandler(io.Discard, nil))) // the library logs every refused message
-	f := &fzRun{c: c, seen: map[string]map[[32]byte]struct{}{}, caseFile: fzCaseFile(), skip: map[int]bool{}, out: os.Getenv("C10_OUT")}
+	f := &fzRun{c: c, seen: map[string]map[[32]byte]struct{}{}, caseFile: fzCaseFile(), skip: map[int]bool{}, hung: map[string]bool{}, out: os.Getenv("C10_OUT")}
 	f.progress = f.out + ".progress"
 	f.from, _ = strconv.Atoi(os.Getenv("C10_FROM"))
 	for _, x := range strings.Split(os.Getenv("C10_SKIP"), ",") {
@@ -1930,7 +2000,7 @@ func fzChild(c *core.Ctx) {
 		}
 	}
 	f.lastFlush = f.from - 1
-	nSrv, nShapes, nCli, nVar, nSweep := 50, 8, 16, 14, 14
+	nSrv, nShapes, nCli, nVar, nSweep := 40, 8, 12, 10, 12
 	budget := fzBudget(c)
 	if !c.Quick() {
 		nSrv, nShapes, nCli, nVar, nSweep = 400, 26, 130, 60, 80
@@ -1969,7 +2039,7 @@ func fzChild(c *core.Ctx) {
 		}
 		f.deadline = time.Now().Add(share - time.Since(t0))
 		t0, n0 = time.Now(), f.nCase
-		cli := &fzCli{fzRun: f, cf: cf, base: map[string]uint64{}, hung: map[string]bool{}, hWire: map[string][][]byte{}, hPlain: map[string][][]byte{}, seq: map[string][]int{}, addrs: addrs}
+		cli := &fzCli{fzRun: f, cf: cf, base: map[string]uint64{}, hWire: map[string][][]byte{}, hPlain: map[string][][]byte{}, seq: map[string][]int{}, addrs: addrs}
 		cli.install(e)
 		if err := cli.enrol(); err != nil {
 			c.Fail("harness:enrol", err.Error(), "fuzz.client", core.Params{"cfg": cfgName(cf)}, core.Obs{})
